@@ -71,23 +71,57 @@ def rank_rule(ctx, rule: str, f, seeds: Set[str], what: str):
                 o = test.ops[0]
                 return {ast.Eq: 0 == k, ast.NotEq: 0 != k, ast.Lt: 0 < k, ast.LtE: 0 <= k, ast.Gt: 0 > k, ast.GtE: 0 >= k}.get(type(o))
             return None
+        def named(test):
+            # a test kept in a single-assigned local (`single = a.ndim <= 1`) is that test
+            if isinstance(test, ast.Name):
+                defs = [st.value for st in ast.walk(f.node) if isinstance(st, ast.Assign) and len(st.targets) == 1
+                        and isinstance(st.targets[0], ast.Name) and st.targets[0].id == test.id]
+                if len(defs) == 1:
+                    return defs[0]
+            if isinstance(test, ast.UnaryOp) and isinstance(test.op, ast.Not):
+                inner = holds_at_zero(named(test.operand))
+                return ast.Constant(value=(not inner)) if inner is not None else test
+            return test
+
+        def verdict(test):
+            t_ = named(test)
+            if isinstance(t_, ast.Constant) and isinstance(t_.value, bool):
+                return t_.value
+            return holds_at_zero(t_)
         for a in ast.walk(f.node):
             if isinstance(a, ast.If):
                 inb = any(node is x for b_ in a.body for x in ast.walk(b_))
                 ino = any(node is x for b_ in a.orelse for x in ast.walk(b_))
-                h = holds_at_zero(a.test)
-                if h is not None and ((inb and h is False) or (ino and h is True)):
-                    return False
+            elif isinstance(a, ast.IfExp):
+                inb = any(node is x for x in ast.walk(a.body))
+                ino = any(node is x for x in ast.walk(a.orelse))
+            else:
+                continue
+            h = verdict(a.test)
+            if h is not None and ((inb and h is False) or (ino and h is True)):
+                return False
         return True
 
     # a name rebound at the top level of the function to something of a fixed rank (`a = a.reshape([n, m])`) is no longer shaped
     # like the input from that statement on
     rebound_at: Dict[str, int] = {}
+
+    def fixed_rank(v) -> bool:
+        # a reshape to an explicit shape, or the result of a call that is not an element-wise function of its arguments
+        if isinstance(v, ast.Call):
+            fn = ast.unparse(v.func).split(".")[-1]
+            return fn not in LIKE and fn not in ALLOC
+        if isinstance(v, (ast.GeneratorExp, ast.ListComp)):
+            return fixed_rank(v.elt)
+        if isinstance(v, (ast.Tuple, ast.List)) and v.elts:
+            return all(fixed_rank(x) for x in v.elts)
+        return False
     for st in f.node.body:
-        if isinstance(st, ast.Assign) and len(st.targets) == 1 and isinstance(st.targets[0], ast.Name) and st.targets[0].id in shaped \
-                and isinstance(st.value, ast.Call) and isinstance(st.value.func, ast.Attribute) and st.value.func.attr == "reshape" \
-                and st.value.args and isinstance(st.value.args[0], (ast.List, ast.Tuple, ast.Name)):
-            rebound_at.setdefault(st.targets[0].id, st.end_lineno or st.lineno)
+        if isinstance(st, ast.Assign) and len(st.targets) == 1 and fixed_rank(st.value):
+            tg = st.targets[0]
+            for nm_ in ([tg] if isinstance(tg, ast.Name) else list(tg.elts) if isinstance(tg, (ast.Tuple, ast.List)) else []):
+                if isinstance(nm_, ast.Name) and nm_.id in shaped:
+                    rebound_at.setdefault(nm_.id, st.end_lineno or st.lineno)
 
     def still_shaped(name: str, node) -> bool:
         return not (name in rebound_at and getattr(node, "lineno", 0) > rebound_at[name])
